@@ -69,7 +69,7 @@ func popMultiKeyWorker(ctx *cmdContext, args map[string]any, fn func(keyName str
 		keyNames = append(keyNames, keyName.(string))
 	}
 
-	timeoutNs := int64(timeout * float64(time.Second))
+	timeoutNs := blockTimeoutNs(timeout)
 	output = blockOnListChangeMultiKey(
 		ctx, keyNames, timeoutNs,
 		func() (output respValue) {
@@ -273,6 +273,16 @@ func fnRPopLPush(ctx *cmdContext, args map[string]any) (output respValue, err er
 	return
 }
 
+// converts the timeout argument (seconds, fractions allowed) to nanoseconds; zero means
+// "wait forever", so a positive timeout too small to represent is rounded up to 1 ns
+func blockTimeoutNs(timeout float64) int64 {
+	ns := int64(timeout * float64(time.Second))
+	if timeout > 0 && ns == 0 {
+		ns = 1
+	}
+	return ns
+}
+
 func blockOnListChange(ctx *cmdContext, keyName string, timeoutNs int64, op func() (output respValue)) (output respValue) {
 	return blockOnListChangeWorker(
 		ctx,
@@ -379,7 +389,7 @@ func fnBLMove(ctx *cmdContext, args map[string]any) (output respValue, err error
 	srcKeyName := args["source"].(string)
 	timeout := args["timeout"].(float64)
 
-	timeoutNs := int64(timeout * float64(time.Second))
+	timeoutNs := blockTimeoutNs(timeout)
 	output = blockOnListChange(ctx, srcKeyName, timeoutNs, func() (output respValue) {
 		output, _ = fnLMove(ctx, args)
 		return
@@ -396,7 +406,7 @@ func fnBLMPop(ctx *cmdContext, args map[string]any) (output respValue, err error
 		keyNames = append(keyNames, keyName.(string))
 	}
 
-	timeoutNs := int64(timeout * float64(time.Second))
+	timeoutNs := blockTimeoutNs(timeout)
 	output = blockOnListChangeMultiKey(ctx, keyNames, timeoutNs, func() (output respValue) {
 		output, _ = fnLMPop(ctx, args)
 		return
@@ -418,7 +428,7 @@ func fnBRPopLPush(ctx *cmdContext, args map[string]any) (output respValue, err e
 	timeout := args["timeout"].(float64)
 	srcKeyName := args["source"].(string)
 
-	timeoutNs := int64(timeout * float64(time.Second))
+	timeoutNs := blockTimeoutNs(timeout)
 	output = blockOnListChange(ctx, srcKeyName, timeoutNs, func() (output respValue) {
 		output, _ = fnRPopLPush(ctx, args)
 		return
